@@ -6217,6 +6217,10 @@ impl BytecodeVM {
                 &interp.heap,
             )));
 
+            // Leave the block scopes entered inside the try statement (the finally block
+            // runs at the statement's own scope depth)
+            self.leave_scopes(interp, handler.scope_depth);
+
             // Pop the try handler (we're exiting this try block)
             self.try_stack.truncate(handler_idx);
 
